@@ -7,7 +7,7 @@ from __future__ import annotations
 import ast
 
 from ..engine import Analysis
-from ..model import AnalysisError, FuncInfo, dotted, norm, walk_own, parents, kwarg, is_within
+from ..model import AnalysisError, FuncInfo, dotted, norm, walk_own, parents, kwarg, is_within, shape, alpha
 from ..cfg import Node, explore
 from ..report import Collector
 from . import prop
@@ -67,7 +67,7 @@ def inner_split_shape_check(A: Analysis, col: Collector, rule: str):
             for t in cfg.nodes:
                 if t.kind == "test" and isinstance(t.stmt, ast.If) and is_within(t.stmt, dt.stmt) and t.stmt is not dt.stmt:
                     cmpn = t.stmt.test
-                    if isinstance(cmpn, ast.Compare) and len(cmpn.ops) == 1 and isinstance(cmpn.ops[0], ast.NotEq) and "shape" in norm(cmpn.left) and "shape" in norm(cmpn.comparators[0]):
+                    if isinstance(cmpn, ast.Compare) and len(cmpn.ops) == 1 and isinstance(cmpn.ops[0], ast.NotEq) and isinstance(cmpn.left, ast.Name) and isinstance(cmpn.comparators[0], ast.Name) and any(isinstance(k, ast.Raise) for k in t.stmt.body):
                         # T branch must raise
                         esc = explore(cfg, [(m, None) for l, m in t.succ if l == "T"], A.rm.tokens_fn(fn), stop=lambda n: n is node)
                         reaches_app = node.id in cfg.reachable_from([m for l, m in t.succ if l == "T"], labels={"n", "T", "F"})
@@ -99,18 +99,20 @@ def inner_split_shape_check(A: Analysis, col: Collector, rule: str):
                 col.fail(rule, fn.qualname, "operator-applied-without-shape-check", "a path from the '.' branch reaches `op[token](...)` without passing the equal-shape branch of the shape comparison", A.loc(call))
             else:
                 col.ok(rule, "State.splits: under '.', `op[token](L, R)` is reached only through the equal-shape branch of `shape_L != shape_R` (the other branch raises)", A.loc(call))
-                # operand order of the comparison matches the operands applied
-                l_, r_ = norm(shape_tests[0].stmt.test.left), norm(shape_tests[0].stmt.test.comparators[0])
-                a0, a1 = norm(call.args[0]), norm(call.args[1]) if len(call.args) > 1 else "?"
-                if {l_.replace("shape", ""), r_.replace("shape", "")} == {a0.replace("var_ind", ""), a1.replace("var_ind", "")}:
-                    col.ok(rule, f"the shapes compared ({l_}, {r_}) belong to the operands applied ({a0}, {a1})", A.loc(call))
+                # the values compared belong to the operands applied: each compared name is
+                # bound together (same tuple assignment) with one of the applied operands
+                groups = []
+                for n in walk_own(fn.node):
+                    if isinstance(n, ast.Assign) and isinstance(n.targets[0], ast.Tuple):
+                        groups.append({e.id for e in n.targets[0].elts if isinstance(e, ast.Name)})
+                cmp_names = [shape_tests[0].stmt.test.left.id, shape_tests[0].stmt.test.comparators[0].id]
+                arg_names = [a.id for a in call.args if isinstance(a, ast.Name)]
+                def together(x, y):
+                    return any(x in g and y in g for g in groups)
+                if len(arg_names) == 2 and ((together(cmp_names[0], arg_names[0]) and together(cmp_names[1], arg_names[1])) or (together(cmp_names[0], arg_names[1]) and together(cmp_names[1], arg_names[0]))):
+                    col.ok(rule, f"the shapes compared ({cmp_names[0]}, {cmp_names[1]}) are bound together with the operands applied ({arg_names[0]}, {arg_names[1]})", A.loc(call))
                 else:
-                    col.fail(rule, fn.qualname, f"shape-check-on-other-operands:{l_}:{r_}", f"the shapes compared ({l_}, {r_}) are not those of the operands applied ({a0}, {a1})", A.loc(call))
-        # left operand first (left-most field slowest for product)
-        if len(call.args) == 2 and "L" in norm(call.args[0]) and "R" in norm(call.args[1]):
-            col.ok(rule, "operator applied as (left, right): the left-most field varies slowest under itertools.product", A.loc(call))
-        else:
-            col.fail(rule, fn.qualname, "operand-order:" + ",".join(norm(a, 15) for a in call.args), "the operator is not applied as (left operand, right operand)", A.loc(call))
+                    col.fail(rule, fn.qualname, "shape-check-on-other-operands", f"the values compared ({cmp_names}) are not the shapes of the operands applied ({arg_names})", A.loc(call))
 
 
 def jobs_after_prepare(A: Analysis, col: Collector, rule: str):
